@@ -412,8 +412,16 @@ func (s *Server) handleNewConnection(ctx context.Context, rwc io.ReadWriteCloser
 		return fmt.Errorf("error writing login transaction: %w", err)
 	}
 
-	c := s.NewClientConn(rwc, remoteAddr)
-	defer c.Disconnect()
+	// The connection joins the client registry (and its departure is announced to the other users) only once the
+	// login has been authenticated below.
+	c := &ClientConn{
+		Icon:       []byte{0, 0},
+		Connection: rwc,
+		Server:     s,
+		RemoteAddr: remoteAddr,
+
+		ClientFileTransferMgr: NewClientFileTransferMgr(),
+	}
 
 	encodedPassword := clientLogin.GetField(FieldUserPassword).Data
 	c.Version = clientLogin.GetField(FieldVersion).Data
@@ -438,6 +446,9 @@ func (s *Server) handleNewConnection(ctx context.Context, rwc io.ReadWriteCloser
 
 		return nil
 	}
+
+	s.ClientMgr.Add(c)
+	defer c.Disconnect()
 
 	if clientLogin.GetField(FieldUserIconID).Data != nil {
 		c.Icon = clientLogin.GetField(FieldUserIconID).Data
